@@ -76,7 +76,11 @@ class RawX12File(object):
                     break
                 self.buffer += more
             if self.buffer.find(self.seg_term) == -1:
-                # Still have no segment terminator
+                # End of input: what is left is a last segment that lacks its terminator
+                line = self.buffer.lstrip('\n\r')
+                self.buffer = ''
+                if line.strip() != '':
+                    yield(line)
                 break
             # Get first segment in buffer
             (line, self.buffer) = self.buffer.split(self.seg_term, 1)
